@@ -17,7 +17,10 @@
 (*                                                                         *)
 (* Variant "as_shipped": an empty (truncated) status.bin makes             *)
 (* Store::status fail, so `vrps --update-after` exits with an error until  *)
-(* some other run rewrites the file.  "intended": unreadable = no status.  *)
+(* some other run rewrites the file ("intended": unreadable = no status);  *)
+(* and the trust anchor certificate is truncated before it is written, so  *)
+(* a kill in between leaves a run without updates with no trust anchor     *)
+(* ("intended": temporary file + rename).                                  *)
 (***************************************************************************)
 EXTENDS Naturals, Sequences, TLC
 
@@ -43,8 +46,12 @@ Init ==
 
 Step(from, to) == pc = from /\ pc' = to
 
-(* update_ta: fs::write = truncate, then write *)
-TaTruncate == Step("ta_truncate", "ta_write") /\ ta' = "empty" /\ UNCHANGED <<point, tmp, status>>
+(* update_ta.  As shipped: fs::write = truncate, then write.  Intended      *)
+(* (and since the repair): written to a temporary file and renamed, so the *)
+(* certificate file is never seen truncated.                               *)
+TaTruncate == Step("ta_truncate", "ta_write")
+              /\ ta' = (IF Variant = "as_shipped" THEN "empty" ELSE ta)
+              /\ UNCHANGED <<point, tmp, status>>
 TaWrite    == Step("ta_write", "open") /\ ta' = "ok" /\ UNCHANGED <<point, tmp, status>>
 
 (* StoredPoint::open *)
@@ -96,4 +103,6 @@ C23_OldNotLostBeforeNew ==
   (scenario = "update" => point \in {"old", "new"})
 C23_CommandsKeepWorking == ~alive => StatusReadable
 C23_TmpNeverVisible == point # "partial"
+(* an offline run after the crash still finds the trust anchor it had *)
+C23_TaNeverTruncated == ta # "empty"
 =============================================================================
